@@ -17,7 +17,9 @@ import functools
 import itertools
 
 ATOMS14 = ["int", "str", "None", "list", "dict", "tuple", "set", "Pattern", "a.b", "typing.Any", "...",
-           "'int | str'", "Literal['a|b']", "Literal['x[', 1]"]
+           "'int | str'", "Literal['a|b']", "Literal['x[', 1]",
+           # string constants with whitespace runs / a tab inside (the text between the quotes is data, not layout)
+           "Literal['a  |  b']", "Literal['t\tb', ' ']", "'int  |  str'"]
 # tier sub-alphabets (sized to the time budget; all 14 atoms are always covered to depth 1 by full:A14:1)
 ALPHABETS = {
     "A14": ATOMS14,
